@@ -417,7 +417,7 @@ func init() {
 			if r.Chance(1, 5) {
 				c.Server.UserCaches = true
 			}
-			genHistory(r, c, histOpts{churn: r.Chance(1, 6), extended: true, closes: true, params: true, binary: true, unknownNames: true, errs: r.Bool(), maxUnits: units(tier, 10)})
+			genHistory(r, c, histOpts{simple: r.Chance(1, 3), churn: r.Chance(1, 6), extended: true, closes: true, params: true, binary: true, unknownNames: true, errs: r.Bool(), maxUnits: units(tier, 10)})
 			if r.Chance(1, 4) {
 				// a second connection, served afterwards on the same server, refers to
 				// the names the first one defined without defining them itself: they
